@@ -270,6 +270,26 @@ func genC08(t *rapid.T) C08Case {
 			m.bp(p)
 		}
 	}
+	// mix probe: whether an untracked tensor is spent is only observable by combining it with
+	// a fresh tracked tensor - the result is tracked (and the fresh tensor receives a gradient)
+	// exactly when the other operand is not spent
+	for x := 0; x < n0; x++ {
+		if m.e[x].cmpOfSpent {
+			continue
+		}
+		s := m.e[x].shape
+		c.Steps = append(c.Steps, HStep{Kind: "leaf", Shape: ref.Cp(s), Vals: prog.DrawValsMode(t, ref.Prod(s), x, "std"), Tracked: true, Probe: true})
+		m.addLeaf(s, true)
+		f := len(m.e) - 1
+		n := prog.Node{Op: "add", In: []int{x, f}}
+		c.Steps = append(c.Steps, HStep{Kind: "op", Node: &n, Probe: true})
+		m.addOp(n, s)
+		p := len(m.e) - 1
+		if m.bpEnabled(p) {
+			c.Steps = append(c.Steps, HStep{Kind: "bp", X: p, Probe: true})
+			m.bp(p)
+		}
+	}
 	return c
 }
 
@@ -334,7 +354,7 @@ func checkC08(c C08Case) *Failure {
 				if twin[o] == nil {
 					twinOK = false
 				}
-				if m.e[o].spent {
+				if m.e[o].spent && !st.Probe {
 					sawOpOnSpent = true
 				}
 				if m.e[o].isGrad {
